@@ -17,7 +17,7 @@ PROP = dict(
     mc=[dict(module="PieceRequests", cfg="MC_PieceRequests.cfg"),
         dict(module="PieceRequests", cfg="MC_PieceRequests_thorough.cfg", tiers=("thorough",), timeout=1500)],
     trace=dict(module="PieceRequestsTrace", cfg="PieceRequestsTrace.cfg"),
-    nontrivial=_nontrivial, chunk_lines=2500,
+    nontrivial=_nontrivial, chunk_lines=2500, max_rejections=8,
     rule="seeded random histories (25-60 calls: ReservePieces with random candidate sets / piece counts / endgame flag, "
          "MarkUnsent, MarkInvalid, Clear, ClearPeer, clock steps of 1..timeout+1 on a clock.Mock; 3 peers, 4 pieces, both "
          "selection policies, agent limit 0-3, origin limit 1-4, timeout 1-3) on a real piecerequest.Manager; after every call "
